@@ -58,6 +58,46 @@ def btLoop : Nat → Bool → List Run → Nat → Nat
 
 def btSteps (rs : List Run) (tail : Nat) : Nat := btLoop rs.length false rs tail
 
+/-! ### Positional memo, exactly as implemented
+`backticks[k]` holds the start of the run of length `k` seen most recently by *any* scan (successful
+ones included), and an opener is rejected when `scanned_for_backticks && backticks[len] <= pos`.
+This is not the same as "no run of that length ahead": a successful scan after the flag was set
+overwrites the entry with the position of its own closer, so a later opener of the same length can be
+rejected although a closer exists (`a``a`a`a`a`` loses its second code span; cmark shares the code).
+`btStepsPos` is the model the correspondence stage compares with the real step counter. -/
+
+structure ScanRes where
+  found : Bool
+  cost : Nat
+  pos : Nat
+  rest : List Run
+  memo : Nat → Nat
+
+/-- One call of the scanning loop from byte position `pos` over the runs still ahead. -/
+def scanPos (L : Nat) : (Nat → Nat) → Nat → List Run → ScanRes
+  | memo, pos, [] => ⟨false, 0, pos, [], memo⟩
+  | memo, pos, r :: rs =>
+    let start := pos + r.gap
+    let memo' : Nat → Nat := if r.len ≤ MAXBACKTICKS then (fun k => if k = r.len then start else memo k) else memo
+    if r.len = L then ⟨true, r.gap + r.len, start + r.len, rs, memo'⟩
+    else
+      let s := scanPos L memo' (start + r.len) rs
+      { s with cost := s.cost + r.gap + r.len }
+
+def btLoopPos : Nat → Bool → (Nat → Nat) → Nat → List Run → Nat → Nat
+  | 0, _, _, _, _, _ => 0
+  | _, _, _, _, [], _ => 0
+  | fuel + 1, scanned, memo, pos, r :: rs, tail =>
+    let p := pos + r.gap + r.len
+    if MAXBACKTICKS < r.len then 1 + btLoopPos fuel scanned memo p rs tail
+    else if scanned && decide (memo r.len ≤ p) then 1 + btLoopPos fuel scanned memo p rs tail
+    else
+      let s := scanPos r.len memo p rs
+      if s.found then 1 + s.cost + btLoopPos fuel scanned s.memo s.pos s.rest tail
+      else 1 + s.cost + tail + btLoopPos fuel true s.memo p rs tail
+
+def btStepsPos (rs : List Run) (tail : Nat) : Nat := btLoopPos rs.length false (fun _ => 0) 0 rs tail
+
 /-- The same loop without the flag: a failed scan is repeated in full by the next opener. -/
 def btLoopNoMemo : Nat → List Run → Nat → Nat
   | 0, _, _ => 0
